@@ -2146,8 +2146,16 @@ def dehomog_pair(r: R, chk, quals: List[str], rule="DEHOMOG-PAIR", floor: int = 
     computes points that way and gives points and weights to the same object (constructor call or two attribute stores), the
     weights have to be that same W — not the weights of the source curve, not abs(W), not a rescaled copy."""
     total = 0
+    work = []
     for q in quals:
         ctx = r.root(q)
+        work.append((q, ctx))
+        # private helpers of the same module that could not be inlined into the view (called from a comprehension)
+        for cr in ctx.calls:
+            for callee in cr.callees:
+                if callee.name.startswith("_") and not callee.name.endswith("__") and callee.qual in r.A.roots and callee.module == ctx.fi.module and not any(w[0] == callee.qual for w in work):
+                    work.append((callee.qual, r.root(callee.qual)))
+    for q, ctx in work:
         fi = ctx.fi
         defs: Dict[str, List[ast.expr]] = {}
         for a in ast.walk(fi.node):
@@ -2155,14 +2163,13 @@ def dehomog_pair(r: R, chk, quals: List[str], rule="DEHOMOG-PAIR", floor: int = 
                 defs.setdefault(a.targets[0].id, []).append(a.value)
 
         def resolve(e, depth=0):
-            """a name through plain copies / container conversions to the name it stands for"""
+            """a name through plain copies / container conversions to the name it stands for (None assignments do not count)"""
             e = _strip_wrappers(e)
             if isinstance(e, ast.Name) and depth < 4:
-                ds = defs.get(e.id, [])
-                if len(ds) == 1:
-                    inner = _strip_wrappers(ds[0])
-                    if isinstance(inner, ast.Name):
-                        return resolve(inner, depth + 1)
+                ds = [d for d in defs.get(e.id, []) if not (isinstance(d, ast.Constant) and d.value is None)]
+                inner = {seg(_strip_wrappers(d)) for d in ds}
+                if len(inner) == 1 and isinstance(_strip_wrappers(ds[0]), ast.Name) and _strip_wrappers(ds[0]).id != e.id:
+                    return resolve(_strip_wrappers(ds[0]), depth + 1)
             return e
 
         def divisor_list(comp):
@@ -2194,6 +2201,20 @@ def dehomog_pair(r: R, chk, quals: List[str], rule="DEHOMOG-PAIR", floor: int = 
                 w_ = divisor_list(d)
                 if w_ is not None:
                     divided[name] = w_
+        # explicit loops over zip(numerators, W): `points.append(invert(w) * numerator)`
+        for lp in ast.walk(fi.node):
+            if isinstance(lp, ast.For) and isinstance(lp.iter, ast.Call) and seg(lp.iter.func) == "zip" and isinstance(lp.target, ast.Tuple) and len(lp.target.elts) == len(lp.iter.args):
+                zmap = {t_.id: a_ for t_, a_ in zip(lp.target.elts, lp.iter.args) if isinstance(t_, ast.Name)}
+                for x in ast.walk(lp):
+                    if isinstance(x, ast.Call) and isinstance(x.func, ast.Attribute) and x.func.attr == "append" and isinstance(x.func.value, ast.Name) and x.args:
+                        for y in ast.walk(x.args[0]):
+                            dv = None
+                            if isinstance(y, ast.BinOp) and isinstance(y.op, ast.Div) and isinstance(y.right, ast.Name):
+                                dv = y.right.id
+                            if isinstance(y, ast.Call) and seg(y.func) == "invert" and y.args and isinstance(y.args[0], ast.Name):
+                                dv = y.args[0].id
+                            if dv in zmap:
+                                divided[x.func.value.id] = seg(resolve(zmap[dv]))
         # explicit loops: `inv = invert(W[i])` ... `points.append(...)`
         for lp in ast.walk(fi.node):
             if isinstance(lp, ast.For):
@@ -2216,6 +2237,16 @@ def dehomog_pair(r: R, chk, quals: List[str], rule="DEHOMOG-PAIR", floor: int = 
                 for wst in [a for a in stores if a.targets[0].attr == "weights" and a.targets[0].value.id == pst.targets[0].value.id]:
                     if not (isinstance(wst.value, ast.Constant) and wst.value.value is None):
                         pairs_pw.append((pst.value, wst.value, wst))
+        # locals that only carry the two values to the stores (`newweights = W; newctrlpoints = P` in one branch, the stores at the end)
+        pnames = {a.value.id for a in ast.walk(fi.node) if isinstance(a, ast.Assign) and len(a.targets) == 1 and isinstance(a.targets[0], ast.Attribute) and a.targets[0].attr == "ctrlpoints" and isinstance(a.value, ast.Name)}
+        wnames = {a.value.id for a in ast.walk(fi.node) if isinstance(a, ast.Assign) and len(a.targets) == 1 and isinstance(a.targets[0], ast.Attribute) and a.targets[0].attr == "weights" and isinstance(a.value, ast.Name)}
+        for b in blocks:
+            pas = [a for a in b if isinstance(a, ast.Assign) and len(a.targets) == 1 and isinstance(a.targets[0], ast.Name) and a.targets[0].id in pnames and len(defs.get(a.targets[0].id, [])) > 1]
+            was = [a for a in b if isinstance(a, ast.Assign) and len(a.targets) == 1 and isinstance(a.targets[0], ast.Name) and a.targets[0].id in wnames and len(defs.get(a.targets[0].id, [])) > 1]
+            for pa_ in pas:
+                for wa_ in was:
+                    if not (isinstance(wa_.value, ast.Constant) and wa_.value.value is None):
+                        pairs_pw.append((pa_.value, wa_.value, wa_))
         for a in ast.walk(fi.node):
             if isinstance(a, ast.Call) and (seg(a.func) in ("Curve",) or seg(a.func).endswith(".__class__")) and len(a.args) == 3:
                 pairs_pw.append((a.args[1], a.args[2], a))
@@ -2239,6 +2270,7 @@ def dehomog_pair(r: R, chk, quals: List[str], rule="DEHOMOG-PAIR", floor: int = 
                    func=q, construct=f"points divided by {wlist}, weights stored {seg(wexpr, 30)}")
     chk.floor(rule, f"dehomogenised control points stored with weights in {', '.join(x.split('.')[-1] for x in quals)}", total, floor)
     return total
+
 
 
 # ------------------------------------------------------------------------------------------------
@@ -2457,14 +2489,33 @@ def swap_symmetric(r: R, chk, qual: str, rule="SWAP-SYMMETRIC"):
     one of them alone) are exchanged."""
     from .common import expand_locals
 
-    ctx = r.root(qual)
-    fi = ctx.fi
-    ps = [p for p in fi.params if p not in ("self", "cls")]
-    if len(ps) < 2:
+    ctx0 = r.root(qual)
+    ps0 = [p for p in ctx0.fi.params if p not in ("self", "cls")]
+    if len(ps0) < 2:
         from .. import AnalysisError
 
         raise AnalysisError(f"{qual} is not a binary operation")
-    pa, pb = ps[0], ps[1]
+    sites = [(ctx0, ps0[0], ps0[1])]
+    # a private helper that receives both operands (`__product_class(a, b, knot)` called from a comprehension cannot be inlined)
+    for cr in ctx0.calls:
+        for callee in cr.callees:
+            if callee.name.startswith("_") and not callee.name.endswith("__") and callee.qual in r.A.roots and isinstance(cr.node, ast.Call):
+                cps = [p for p in callee.params if p not in ("self", "cls")]
+                names = [a.id if isinstance(a, ast.Name) else None for a in cr.node.args]
+                derived0 = {ps0[0]: "a", ps0[1]: "b"}
+                if ps0[0] in names and ps0[1] in names and len(cps) >= len(names):
+                    sites.append((r.root(callee.qual), cps[names.index(ps0[0])], cps[names.index(ps0[1])]))
+    total = 0
+    for ctx, pa, pb in sites:
+        total += _swap_symmetric_in(r, chk, ctx, pa, pb, rule)
+    chk.floor(rule, f"expressions of {qual} (and its private helpers) that use the multiplicities of both operands", total, 1)
+
+
+def _swap_symmetric_in(r: R, chk, ctx, pa: str, pb: str, rule: str) -> int:
+    from .common import expand_locals
+
+    fi = ctx.fi
+    qual = fi.qual
     # locals derived from exactly one operand, paired by a common stem: degreea / degreeb, multa / multb
     derived = {pa: "a", pb: "b"}
     ch = True
@@ -2483,7 +2534,6 @@ def swap_symmetric(r: R, chk, qual: str, rule="SWAP-SYMMETRIC"):
             sides = {derived[x.value.id] for x in ast.walk(e) if isinstance(x, ast.Attribute) and x.attr == "mult" and isinstance(x.value, ast.Name) and x.value.id in derived}
             if sides == {"a", "b"}:
                 exprs.append((st, e))
-    chk.floor(rule, f"expressions of {qual} that use the multiplicities of both operands", len(exprs), 1)
     side_a = sorted(n for n, s_ in derived.items() if s_ == "a")
     side_b = sorted(n for n, s_ in derived.items() if s_ == "b")
     for st, e in exprs:
@@ -2500,6 +2550,7 @@ def swap_symmetric(r: R, chk, qual: str, rule="SWAP-SYMMETRIC"):
         chk.ob(rule, f"{qual}: `{seg(e, 60)}` is unchanged when the operands are exchanged", ok, loc=r.loc(ctx, st),
                detail="" if ok else f"{qual}: `{seg(e, 80)}` becomes `{seg(swapped, 80)}` when `{pa}` and `{pb}` are exchanged, which is a different expression: the knot vector of A * B is not the knot vector of B * A, so for one of the two orders the product space is wrong (too smooth or invalid) whenever the degrees differ",
                func=qual, construct="operands not treated alike")
+    return len(exprs)
 
 
 # ------------------------------------------------------------------------------------------------
